@@ -1245,13 +1245,25 @@ func c08Extra(x *c08, funcs []*FuncInfo, allPaths map[*FuncInfo][]*Path) {
 					(src.Op == "load" || src.Op == "index") && rootOf(src).Key() == paramOf(fi, 2).Key()
 				if good {
 					// same row index on both sides
-					var si *Term
+					var si, sbase *Term
 					if src.Op == "load" && src.Args[0].Op == "iaddr" {
-						si = src.Args[0].Args[1]
+						si, sbase = src.Args[0].Args[1], src.Args[0].Args[0]
 					} else if src.Op == "index" {
-						si = src.Args[1]
+						si, sbase = src.Args[1], src.Args[0]
 					}
 					good = si != nil && ToPoly(si).Equal(ToPoly(dst.Args[1]))
+					// the row is an element of the input itself: a window jagged[:n] may reach beyond the input's length
+					// (into its spare capacity, or panic), which "ignoring rows outside the bounds" does not cover
+					if good && sbase != nil && sbase.Key() != paramOf(fi, 2).Key() {
+						inWindow := false
+						if sbase.Op == "slice" && len(sbase.Args) == 4 && sbase.Args[0].Key() == paramOf(fi, 2).Key() && (sbase.Args[1].Op == "none" || sbase.Args[1].IsConst("0")) && sbase.Args[2].Op != "none" {
+							lenJ := ToPoly(&Term{Op: "builtin", Sym: "len", Args: []*Term{paramOf(fi, 2)}})
+							inWindow = x.boundsOf(p, mk.Res).le(ToPoly(sbase.Args[2]), lenJ, 2)
+						}
+						if !inWindow {
+							good = false
+						}
+					}
 					// and that index is below height on this path
 					below := false
 					if si != nil {
